@@ -25,29 +25,32 @@
    literal ASTs they were written for (C04_patterns_current), so a semantic edit of a
    pattern string in reader.py breaks a proof obligation.
 
+   sect_ok is_curves is_param line u v p3 p4 d collects the section-dependent conditions:
+     ~Curves        : the line contains no "..";
+     not ~Parameter : the description has no ':' (the LAST colon of the line separates;
+                      the value may contain any number of colons);
+     ~Parameter     : every colon of the value is a clock colon (clock_colons v: followed,
+                      inside the value, by [0-5][0-9], mm or MM — the look-ahead alternatives
+                      read off the generated AST) and EITHER the separating colon is set off
+                      by a blank on both sides (then the description may contain colons) OR
+                      unit and description are colon-free (any padding).
+
    NOT PROVED (what the full property claims beyond the theorems below):
-   * ~Parameter for arbitrary values: C04_param_time needs every colon of the value to be a
-     clock colon recognised by its look-AHEAD (followed inside the value by [0-5][0-9], mm
-     or MM) and the separating colon set off by a blank on BOTH sides (the quantifier of
-     the property requires this only when the description contains colons).
-     C04_param_no_eligible covers the complementary case "no colon of the line can act as
-     separator" (then the ordinary pattern applies).  Not covered: separator colon
-     eligible but not set off by blanks; colons excused only by the look-BEHIND alternative
-     (" hh:", " 23:" with a non-minute suffix); units containing colons in ~Parameter when
-     the value zone is empty.
-   * ~Curves lines that contain ".." (C04_curves_parse assumes no ".." anywhere in the
-     line, which is stronger than the DESIGN's "v contains no .. and the text before the
-     delimiter does not end in a non-blank followed by .."): the name_with_dots pattern is
-     not analysed.
-   * units that consist only of digits (e.g. "M.1000  v : d"): excluded by conf_unit
-     (the optional digits-blank group of the unit pattern then participates).  The
-     documented form "1000 lbf" is C04_numeric_unit.
-   * lines without a colon (value_without_colon_delimiter), and non-ASCII digits.
-   * the numeric-unit form and the missing-period form inside ~Parameter are proved only
-     for missing-period (C04_missing_period holds in every section kind). *)
+   * ~Parameter: colons excused only by the look-BEHIND alternatives (" hh:", " 23:" with a
+     non-minute suffix) are not admitted in the value; a unit containing colons or a
+     description containing colons is admitted only when the separator is set off by blanks
+     on both sides.
+   * ~Curves lines that contain ".." anywhere (stronger exclusion than the DESIGN's "v
+     contains no .. and the text before the delimiter does not end in a non-blank followed
+     by .."): the name_with_dots pattern is not analysed.
+   * units that consist only of digits (e.g. "M.1000  v : d"): excluded by conf_unit (the
+     optional digits-blank group of the unit pattern then participates).  The documented
+     form "1000 lbf" is C04_numeric_unit.
+   * lines without a colon (value_without_colon_delimiter).
+   * \d is modelled as ASCII digits; white space as str.isspace(). *)
 From Coq Require Import List NArith Bool String.
 Import ListNotations.
-Require Import PyStr Regex Regexes HeaderLine HeaderLineSpec HeaderLineProofs.
+Require Import PyStr Regex Regexes HeaderLine HeaderLineSpec HeaderLineFragments HeaderLineProofs.
 Open Scope string_scope. Open Scope N_scope.
 
 (* 0. the generated ASTs are the ones the proofs are about *)
@@ -59,8 +62,20 @@ Theorem C04_patterns_current :
   time_behind_alts = behind_lit /\ time_ahead_alts = ahead_lit.
 Proof. exact patterns_are_current. Qed.
 
-(* 1. MNEM .UNIT  VALUE : DESCRIPTION under any padding, section kinds other than Curves and
-   Parameter.  The value may contain colons (the LAST colon of the line separates), the
+(* 1. MASTER: MNEM .UNIT  VALUE : DESCRIPTION under any padding parses to exactly the four
+   fields, in every section kind (is_curves, is_param arbitrary) under sect_ok.  The unit may
+   contain dots and colons, unit / value / description may be empty; the case where unit
+   zone is directly against the separator and the unit star has to back off is included. *)
+Theorem C04_parse_all :
+  forall (p0 mn p1 u p2 v p3 p4 d p5 : list N) (is_curves is_param : bool),
+  padding6 p0 p1 p2 p3 p4 p5 = true ->
+  conf_mnem mn = true -> conf_unit u = true -> conf_text v = true -> conf_text d = true ->
+  value_set_off p2 v = true ->
+  sect_ok is_curves is_param (layout p0 mn p1 u p2 v p3 p4 d p5) u v p3 p4 d = true ->
+  read_header_line (layout p0 mn p1 u p2 v p3 p4 d p5) is_curves is_param = Some (mkhl mn u v d).
+Proof. exact parse_all. Qed.
+
+(* 1a. instance: section kinds other than Curves and Parameter.  The value may contain colons (the LAST colon of the line separates), the
    unit may contain dots and colons, unit / value / description may be empty; the case
    where unit, value and third padding are all empty and the unit star has to back off
    from the separating colon is included. *)
@@ -72,7 +87,7 @@ Theorem C04_main_parse : forall p0 mn p1 u p2 v p3 p4 d p5 : list N,
   read_header_line (layout p0 mn p1 u p2 v p3 p4 d p5) false false = Some (mkhl mn u v d).
 Proof. exact main_parse. Qed.
 
-(* 2. the same in ~Curves, for lines without ".." *)
+(* 2. instance: the same in ~Curves, for lines without ".." *)
 Theorem C04_curves_parse : forall p0 mn p1 u p2 v p3 p4 d p5 : list N,
   padding6 p0 p1 p2 p3 p4 p5 = true ->
   conf_mnem mn = true -> conf_unit u = true -> conf_text v = true -> conf_text d = true ->
@@ -91,20 +106,20 @@ Theorem C04_missing_period : forall (p0 nm p1 p4 v p5 : list N) (is_curves is_pa
   read_header_line (layout_np p0 nm p1 p4 v p5) is_curves is_param = Some (mkhl nm [] v []).
 Proof. exact missing_period. Qed.
 
-(* 4. a numeric unit followed by a single blank keeps its suffix ("1000 lbf"), outside
-   ~Parameter *)
+(* 4. a numeric unit followed by a single blank keeps its suffix ("1000 lbf"), in every
+   section kind under sect_ok *)
 Theorem C04_numeric_unit :
-  forall (p0 mn p1 ds : list N) (sp : N) (w p2 v p3 p4 d p5 : list N) (is_curves : bool),
+  forall (p0 mn p1 ds : list N) (sp : N) (w p2 v p3 p4 d p5 : list N) (is_curves is_param : bool),
   padding6 p0 p1 p2 p3 p4 p5 = true ->
   conf_mnem mn = true -> conf_numeric_unit ds sp w = true ->
   conf_text v = true -> conf_text d = true -> value_set_off p2 v = true ->
-  in_str 58 d = false ->
-  (is_curves = true -> no_double_dot (layout p0 mn p1 (ds ++ [sp] ++ w) p2 v p3 p4 d p5) = true) ->
-  read_header_line (layout p0 mn p1 (ds ++ [sp] ++ w) p2 v p3 p4 d p5) is_curves false
+  sect_ok is_curves is_param (layout p0 mn p1 (ds ++ [sp] ++ w) p2 v p3 p4 d p5)
+          (ds ++ [sp] ++ w) v p3 p4 d = true ->
+  read_header_line (layout p0 mn p1 (ds ++ [sp] ++ w) p2 v p3 p4 d p5) is_curves is_param
   = Some (mkhl mn (ds ++ [sp] ++ w) v d).
-Proof. exact numeric_unit. Qed.
+Proof. exact numeric_unit_all. Qed.
 
-(* 5. ~Parameter: clock-time colons in the value are not separators and the description may
+(* 5. instance, ~Parameter: clock-time colons in the value are not separators and the description may
    contain colons, when the separating colon is set off by a blank on both sides *)
 Theorem C04_param_time : forall (p0 mn p1 u p2 v p3 p4 d p5 : list N) (is_curves : bool),
   padding6 p0 p1 p2 p3 p4 p5 = true ->
@@ -116,7 +131,19 @@ Theorem C04_param_time : forall (p0 mn p1 u p2 v p3 p4 d p5 : list N) (is_curves
   read_header_line (layout p0 mn p1 u p2 v p3 p4 d p5) is_curves true = Some (mkhl mn u v d).
 Proof. exact param_time. Qed.
 
-(* 5'. all 24 hours x 60 minutes of  TIME.  hh:mm 23-JAN-2001 : Time: At Bottom  (a finite
+(* 5a. instance, ~Parameter with colon-free unit and description, ANY padding around the
+   separating colon: whether or not the separating colon is excused by the look-arounds
+   (then the time pattern fails and the ordinary pattern takes over) the result is the same *)
+Theorem C04_param_parse : forall (p0 mn p1 u p2 v p3 p4 d p5 : list N) (is_curves : bool),
+  padding6 p0 p1 p2 p3 p4 p5 = true ->
+  conf_mnem mn = true -> conf_unit u = true -> conf_text v = true -> conf_text d = true ->
+  value_set_off p2 v = true ->
+  clock_colons v = true -> in_str 58 u = false -> in_str 58 d = false ->
+  (is_curves = true -> no_double_dot (layout p0 mn p1 u p2 v p3 p4 d p5) = true) ->
+  read_header_line (layout p0 mn p1 u p2 v p3 p4 d p5) is_curves true = Some (mkhl mn u v d).
+Proof. exact param_parse. Qed.
+
+(* 5b. all 24 hours x 60 minutes of  TIME.  hh:mm 23-JAN-2001 : Time: At Bottom  (a finite
    sweep evaluated by the kernel; bound stated) *)
 Theorem C04_param_time_sweep : forall h mi : nat, (h < 24)%nat -> (mi < 60)%nat ->
   read_header_line (time_line h mi) false true = Some (time_expected h mi).
@@ -191,13 +218,31 @@ Example C04_ex_time :
                       ex_p4 (s2l "Time: At Bottom") ex_p5) false true
   = Some (mkhl (s2l "TIME") [] (s2l "13:45:07 23-JAN-2001") (s2l "Time: At Bottom")).
 Proof. vm_compute. reflexivity. Qed.
+(* ~Parameter, separator NOT set off and excused by its look-behind (" 13:"): the time pattern
+   fails and the ordinary pattern takes over — same result (C04_param_parse) *)
+Example C04_ex_param_blocked :
+  sect_ok false true (layout [] (s2l "RUN") [] [] ex_p1 (s2l "13") [] [] (s2l "run number") [])
+          [] (s2l "13") [] [] (s2l "run number") = true /\
+  read_header_line (layout [] (s2l "RUN") [] [] ex_p1 (s2l "13") [] [] (s2l "run number") []) false true
+  = Some (mkhl (s2l "RUN") [] (s2l "13") (s2l "run number")).
+Proof. vm_compute. split; reflexivity. Qed.
+Example C04_ex_num_param :
+  sect_ok false true (layout [] (s2l "TENS") ex_p1 (s2l "1000" ++ [32] ++ s2l "lbf") [] [] ex_p3
+                        ex_p4 (s2l "Max: tension") []) (s2l "1000" ++ [32] ++ s2l "lbf") [] ex_p3 ex_p4
+          (s2l "Max: tension") = true /\
+  read_header_line (layout [] (s2l "TENS") ex_p1 (s2l "1000" ++ [32] ++ s2l "lbf") [] [] ex_p3
+                      ex_p4 (s2l "Max: tension") []) false true
+  = Some (mkhl (s2l "TENS") (s2l "1000 lbf") [] (s2l "Max: tension")).
+Proof. vm_compute. split; reflexivity. Qed.
 Example C04_ex_sweep_line : l2s (time_line 7 5) = "TIME.  07:05 23-JAN-2001 : Time: At Bottom".
 Proof. vm_compute. reflexivity. Qed.
 
 Print Assumptions C04_patterns_current.
+Print Assumptions C04_parse_all.
 Print Assumptions C04_main_parse.
 Print Assumptions C04_curves_parse.
 Print Assumptions C04_missing_period.
 Print Assumptions C04_numeric_unit.
 Print Assumptions C04_param_time.
+Print Assumptions C04_param_parse.
 Print Assumptions C04_param_time_sweep.
